@@ -26,8 +26,8 @@ CallOK(call, G, CO, ST, TW) ==
        [] call.c = "complete"    -> /\ ExactlyOnce(call.r, CO)
                                     /\ Len(call.r) >= 1
                                     /\ call.r[1] = G
-       [] call.c = "twoval_chan" -> ExactlyOnce(call.r, TW) /\ call.ch = "disconnected"
-       [] call.c = "ng_chan"     -> ExactlyOnce(call.r, ST) /\ call.ch = "disconnected"
+       [] call.c \in {"twoval_chan", "twoval_chan_b"} -> ExactlyOnce(call.r, TW) /\ call.ch = "disconnected"
+       [] call.c \in {"ng_chan", "ng_chan_b"}         -> ExactlyOnce(call.r, ST) /\ call.ch = "disconnected"
        [] OTHER                  -> ExactlyOnce(call.r, ST)
 
 Needs(r, cs) == \E i \in DOMAIN r.calls : r.calls[i].c \in cs
